@@ -355,6 +355,14 @@ func faultPhase(env *vh.Env, rep *vh.Report, r *vh.Rng) {
 		srv.close()
 		rep.Case(fmt.Sprintf("fault %s %s k=%d", sc.path, sc.big, sc.k), true)
 		rep.Count("fault-scenario:" + sc.path)
+		switch { // the cut-position vocabulary C06 uses, so that the two reports line up
+		case sc.k == 0:
+			rep.Count("cut:between-frames")
+		case sc.k < 22:
+			rep.Count("cut:inside-header")
+		default:
+			rep.Count("cut:inside-payload")
+		}
 		if len(results) > 1 && results[1].Err != "" && sc.path == "direct" {
 			midErr++
 			rep.Count("fault:write-error-returned-for-the-broken-frame")
